@@ -68,7 +68,7 @@ FinalProblems ==
   ELSE IF Traces[tix].partial # "" THEN <<"partial-line", Traces[tix].partial>>
   ELSE IF (status = "acc") # Traces[tix].ok THEN <<"verdict", status>>
   \* C13: mutations made through a non-const context are visible to the caller: one per contextual functor call
-  ELSE IF Traces[tix].cat # 0 /\ Traces[tix].ctxmut # (IF Traces[tix].cat = 2 THEN 0 ELSE Cardinality({i \in 1..Len(nodes) : nodes[i].k = 1 /\ D!IsCtx(nodes[i].sym)}))
+  ELSE IF Traces[tix].cat # 0 /\ Traces[tix].ctxmut # (IF Traces[tix].cat \in {2, 7} THEN 0 ELSE Cardinality({i \in 1..Len(nodes) : nodes[i].k = 1 /\ D!IsCtx(nodes[i].sym)}))
        THEN <<"context-mutations", Traces[tix].ctxmut>>
   ELSE IF status = "acc" /\ ~TreeOK THEN <<"tree", vals>>
   ELSE <<>>
